@@ -124,14 +124,18 @@ def workload(case):
                 else:
                     reply = json.dumps({'jsonrpc': '2.0', 'id': key, 'result': key}).encode() + b'\n'
 
-                def deliver(reply=reply, ids=ids):
+                who = (m[0] if isinstance(m, list) else m)['params'][0]
+
+                def deliver(reply=reply, ids=ids, who=who):
                     for i in ids:
                         answered.add(i)
                     if not ft.lost:
+                        ans_time[who] = loop.time()         # the peer's well-formed answer reaches the session, connection up
                         proto.data_received(reply)
                 loop.call_later(beh[1], deliver)
 
         written = {}
+        ans_time = {}
         backlog = [0]
         snap_samples = []
 
@@ -190,7 +194,8 @@ def workload(case):
                 'samples': sorted(snap_samples),
                 'expected_samples': sorted(x for i, c in calls.items() if i in wtimes
                                            for x in [(c['t1'] - wtimes[i]) / max(1, case['callers'][i]['batch'])] * max(1, case['callers'][i]['batch'])),
-                'npending': npending, 'own_list': own_list}
+                'npending': npending, 'own_list': own_list, 'ans_time': {str(k): v for k, v in ans_time.items()},
+                'lost': bool(ft.lost or ft.closing)}
     finally:
         session.time = saved_time
         sessions.close_loop(loop)
@@ -285,6 +290,11 @@ class C20(Prop):
         directed.append({'kind': 'workload', 'cfg': {'timeout': 300.0, 'trt': 0.05, 'recal': 10},
                          'peer': [['answer', 1.0]] * 10 + [['answer', 20.0 + 0.5 * i] for i in range(35)] + [['answer', 60.0]] * 60,
                          'callers': [{'start': 0, 'batch': 0}] * 45 + [{'start': 2.0, 'batch': 0}] * 60, 'lose_at': None, 'horizon': 900})
+        # an answer that comes after its caller has given up must not disturb the callers that are answered in time
+        directed.append({'kind': 'workload', 'cfg': {'timeout': 1.0, 'trt': 0.5, 'recal': 30},
+                         'peer': [['answer', 1.5], ['answer', 0.7], ['answer', 0.05]],
+                         'callers': [{'start': 0, 'batch': 0}, {'start': 1.0, 'batch': 0}, {'start': 2.0, 'batch': 0}, {'start': 2.5, 'batch': 2},
+                                     {'start': 3.0, 'batch': 0}], 'lose_at': None, 'horizon': 60})
         for w in range(nw + len(directed)):
             ncall = rng.choice([1, 3, 10, 40, 120])
             timeout = rng.choice([30.0, 5.0, 1.0])
@@ -338,6 +348,11 @@ class C20(Prop):
                         clause = 'a caller was still waiting after the response wait limit had passed since its request was written'
                     if c['out'] == 'TaskTimeout' and tw is not None and c['t1'] - tw < o['timeout'] - 1e-6:
                         clause = 'TaskTimeout before the response wait limit had passed'
+                    ta = o['ans_time'].get(k)
+                    if (case.get('lose_at') is None and not o['lost'] and tw is not None and ta is not None and ta - tw < o['timeout'] - 1e-6
+                            and c['out'] != 'result'):
+                        clause = (f"the peer's answer reached the session {ta - tw:.3f} s after the request was written (limit "
+                                  f"{o['timeout']} s, connection up) but the caller got {c['out']} instead of the response")
             if clause:
                 out.append(Failure(case, o, clause))
         # the outgoing limiter is the same Concurrency class as the incoming one: its per-handle trace acceptance
